@@ -20,6 +20,9 @@ Decided clauses (shared with C12 R12.3):
   R15.3 bytes of the text are classified as values 0..255: in the decoders no sign-extended text byte reaches a
         classification helper or arithmetic ("only alphabet characters" over the full 8-bit character set; a
         sign-extended byte >= 0x80 makes the branch-free EQ() of the Base64 tables true for '+' and '/').
+  R15.6 (E18, exact finite-domain evaluation of the branch-free table functions) reader's and writer's alphabets agree per variant: for
+        every byte c, b64_char_to_byte(c) != 0xFF exactly when some digit x < 64 has b64_byte_to_char(x) == c, and then it returns x;
+        the same for the URL-safe pair, whose alphabets differ from the original in exactly the two documented characters.
 NOT decided: the rest of the accepted language, round-trip equality, NUL termination and the
 encoded-length formula.
 """
@@ -134,6 +137,7 @@ def run(ctx, chk):
     trailing_bits_rule(prog, chk)
     signedness_rule(prog, chk)
     hex_pairs_rule(prog, chk)
+    alphabet_agreement_rule(prog, chk)
 
 
 def _strip(t):
@@ -260,3 +264,33 @@ def hex_pairs_rule(prog, chk):
                    detail="" if ok else "strchr(ignore, c) is consulted without the fact `%s == 0`: a digit pair may be split by an ignored "
                    "character" % fn.insts[P].get("name", "state"), path=None if ok else p, key="R15.4 sodium_hex2bin")
     chk.floor("R15.4", "paths of sodium_hex2bin on which an ignored character is skipped", n, 1)
+
+
+def alphabet_agreement_rule(prog, chk):
+    from .. import finite
+    n = 0
+    alph = {}
+    for enc, dec, what in (("b64_byte_to_char", "b64_char_to_byte", "original"),
+                           ("b64_byte_to_urlsafe_char", "b64_urlsafe_char_to_byte", "URL-safe")):
+        e = prog.need(enc, unit="sodium/codecs.c", rule="R15.6")
+        d = prog.need(dec, unit="sodium/codecs.c", rule="R15.6")
+        A = [finite.evaluate(prog, e, x) for x in range(64)]
+        D = [finite.evaluate(prog, d, c) for c in range(256)]
+        if any(v is None for v in A) or any(v is None for v in D):
+            raise AnalysisBroken("R15.6: %s / %s are no longer branch-free single-block functions of one integer" % (enc, dec))
+        n += 1
+        alph[what] = A
+        okA = len(set(A)) == 64 and all(0 < a < 128 for a in A)
+        chk.ob("R15.6", e, "the %s encoder emits 64 distinct ASCII characters" % what, okA, key="R15.6 %s distinct" % enc)
+        extra = [c for c in range(256) if D[c] != 0xFF and c not in A]
+        wrong = [x for x in range(64) if D[A[x]] != x]
+        chk.ob("R15.6", d, "the %s decoder accepts exactly the characters its encoder emits and maps each back to its digit" % what,
+               not extra and not wrong,
+               detail=("accepts %s which the encoder never emits" % ", ".join("%r (as digit %d)" % (chr(c), D[c]) for c in extra[:6]) if extra else "") +
+               ("; digits %s do not decode to themselves" % wrong[:6] if wrong else ""), key="R15.6 %s agreement" % dec)
+    if len(alph) == 2:
+        diff = [x for x in range(64) if alph["original"][x] != alph["URL-safe"][x]]
+        chk.ob("R15.6", "sodium/codecs.c", "the two alphabets differ in digits 62 and 63 only ('+' '/' vs '-' '_')",
+               diff == [62, 63] and [alph["original"][x] for x in diff] == [43, 47] and [alph["URL-safe"][x] for x in diff] == [45, 95],
+               key="R15.6 variant difference")
+    chk.floor("R15.6", "encoder / decoder pairs evaluated", n, 2)
